@@ -638,6 +638,47 @@ func (e *Env) call(n *ast.CallExpr) *Val {
 			}
 		}
 		return e.errf("typeid: unknown type")
+	case "absidx": // absidx(s, j): element of slice s's backing array at ABSOLUTE index j (trigger-friendly)
+		sv, j := e.tr(n.Args[0]), e.tr(n.Args[1])
+		st, ok := sv.Typ.Underlying().(*types.Slice)
+		if !ok {
+			return e.errf("absidx on non-slice")
+		}
+		hn, hs := fv.g.elemHeap(st.Elem())
+		h := fv.heapAt(e.st, hn, hs)
+		return &Val{T: fmt.Sprintf("(select (select %s (s.arr %s)) %s)", h, sv.T, j.T), Typ: st.Elem()}
+	case "oldabsidx": // oldabsidx(s, j): element at absolute index j (current-state expression) of slice s as it was in the old state
+		oe := *e
+		if e.old != nil {
+			oe.st = e.old
+		}
+		oe.inOld = true
+		sv := oe.tr(n.Args[0])
+		e.errs = append(e.errs, oe.errs[len(e.errs):]...)
+		j := e.tr(n.Args[1])
+		st, ok := sv.Typ.Underlying().(*types.Slice)
+		if !ok {
+			return e.errf("oldabsidx on non-slice")
+		}
+		hn, hs := fv.g.elemHeap(st.Elem())
+		h := fv.heapAt(oe.st, hn, hs)
+		return &Val{T: fmt.Sprintf("(select (select %s (s.arr %s)) %s)", h, sv.T, j.T), Typ: st.Elem()}
+	case "setfield": // setfield(x, F, v): struct value x with field F replaced by v
+		x, v := e.tr(n.Args[0]), e.tr(n.Args[2])
+		id, ok := n.Args[1].(*ast.Ident)
+		if !ok || x.Typ == nil {
+			return e.errf("setfield(x, Field, v)")
+		}
+		st, ok := x.Typ.Underlying().(*types.Struct)
+		if !ok {
+			return e.errf("setfield on non-struct")
+		}
+		idx, _ := findField(st, id.Name)
+		if idx < 0 {
+			return e.errf("setfield: no field %s", id.Name)
+		}
+		v, _ = e.unify(v, &Val{Typ: st.Field(idx).Type()})
+		return &Val{T: fv.updatePath(x.T, []pathStep{{field: idx, typ: x.Typ}}, v.T), Typ: x.Typ}
 	case "setidx": // setidx(a, i, v): array a updated at i
 		a, i, v := e.tr(n.Args[0]), e.tr(n.Args[1]), e.tr(n.Args[2])
 		return &Val{T: "(store " + a.T + " " + i.T + " " + v.T + ")", Typ: a.Typ}
